@@ -15,6 +15,34 @@ import atexit, json, os, pickle, select, struct, subprocess, sys, time
 TIMEOUT_S = 120
 
 
+def tree_signature():
+    """(path, mtime, size) of every source file of the package under test"""
+    from vlib import paths
+    import hashlib
+    h = hashlib.sha1()
+    root = os.path.join(paths.REPO, "src", "qutip_qip")
+    for d, _, files in sorted(os.walk(root)):
+        for f in sorted(files):
+            if f.endswith(".py"):
+                st = os.stat(os.path.join(d, f))
+                h.update(f"{d}/{f}:{st.st_mtime_ns}:{st.st_size};".encode())
+    return h.hexdigest()
+
+
+SIG0 = tree_signature()          # when this process started using the package
+
+
+class TreeChanged(RuntimeError):
+    """the source tree was modified while the check was running: this process and the reference process do not run the
+    same code, a difference between them says nothing about the property"""
+
+
+def assert_same_tree():
+    if tree_signature() != SIG0:
+        raise TreeChanged("the source tree under test was modified during the check (new-process reference runs other "
+                          "code than this process): run the check again")
+
+
 class FreshServer:
     def __init__(self):
         env = dict(os.environ)
